@@ -19,6 +19,7 @@ import (
 var schedules = []string{
 	"close-open-before-old-reader-exits",
 	"failure-between-queued-close-and-open",
+	"failed-close-takes-token-back-before-reader-looks",
 	"two-opens-during-slow-connect",
 	"three-opens-during-slow-connect",
 	"monitor-reopen-and-application-open-during-slow-connect",
@@ -194,6 +195,47 @@ func (d *driver) runSchedule() {
 			return
 		}
 		d.steps("IRGWRI")
+
+	case "failed-close-takes-token-back-before-reader-looks":
+		// The underlying Close tears the stream down and fails; the read loop
+		// wakes up but is slow: Close() has taken its token back and returned
+		// the error before the read loop looks at closeSignal.  The read loop
+		// then reports the dead stream itself.  Whatever the order, every call
+		// returns, exactly one cause is published, and the transport reopens.
+		d.steps("OR")
+		if d.status != stOK {
+			return
+		}
+		d.syncReader()
+		d.setGate(&d.st.holdReadErr)
+		d.st.mu.Lock()
+		d.st.teardownFail = map[int]error{d.st.closeCalls + 1: mkErr(errResetPlain)}
+		d.st.teardownNoWait = true
+		d.st.mu.Unlock()
+		d.spec.Faults = []fault{{"CloseTeardown", d.st.closeCount() + 1, errResetPlain}}
+		d.noSettle = true
+		d.steps("C")
+		if d.status != stOK {
+			return
+		}
+		if !d.waitSnap("woken read loop held after its Read returned", func(s ftSnap) bool { return s.heldReadErr >= 1 }) {
+			return
+		}
+		d.openGate(&d.st.holdReadErr)
+		d.noSettle = false
+		if d.halfClosed {
+			// the read loop, released, must now end the session (or a second Close does)
+			c, ok := d.awaitCause("race", 0)
+			if !ok {
+				return
+			}
+			d.stash = &c
+			d.halfClosed = false
+			d.h.run.Add("failed_Close_then_close_by_read_loop", 1)
+			d.logf("after the failed Close the read loop closed the session itself: %s", errText(c.v))
+			d.closeProtocol("race")
+		}
+		d.steps("WRIC")
 
 	case "two-opens-during-slow-connect", "three-opens-during-slow-connect":
 		// The underlying connect is slow; two (three) callers open the same
